@@ -1,13 +1,13 @@
 """C06, C07: Netmap contract — epoch tick with publication and subscriber fan-out; candidate state machine."""
-RULE = ("seeded random histories on committees of 1, 4 and 7 members over a pool of 5 node keys (each present in the legacy "
-        "list, the structured list, both or neither), 4 probe subscriber contracts that record every newEpoch call and can be "
+RULE = ("seeded random histories on committees of 1, 4 and 7 members over a pool of 6 node keys (each present in the legacy "
+        "list, the structured list, both or neither; keys 0 and 5 are a parity pair: private keys d and n-d, compressed keys 02|X and 03|X), 4 probe subscriber contracts that record every newEpoch call and can be "
         "switched to reject, in half of the 1- and 4-member cases the real Balance and Container contracts as first subscribers: "
         "addPeer/addPeerIR/addNode/updateState/updateStateIR/deleteNode with signer sets {node+Alphabet, node, Alphabet, other node+Alphabet, "
         "node+committee majority, nobody}, states {1,2,3,0,4,-1,255,256,42}, subscriptions (probes, real contracts, contracts without "
         "newEpoch/1, wrong arity, the Netmap contract itself, non-contracts, 19/21-byte hashes), ticks with epoch in "
         "{cur-1,cur,cur+1,cur+2,cur+3..11,cur+10..12,0,-1,127..129,255..257,65535,65536}, one block in seven holds 2-3 transactions; "
         "every 5th case is a malformed stream (key lengths 0/20/32/34, non-curve keys, blobs of 0/2/34/35 bytes); every 8th case "
-        "(tagged nonwf, monitors off) uses epochs around and beyond 2^31/2^32. Observed after every block: decoded raw storage of all "
+        "(tagged nonwf, monitors off) uses epochs around and beyond 2^31/2^32; in addition 4 (thorough: 10 per shard) directed long cases per seed cross the wrap of the snapshot ring: add candidates in both lists (always incl. the parity pair), 1-2 ticks, empty the legacy list, the structured list or both with every removing method, 11-13 further successful ticks incl. jumps (each alone in its block, both publications judged at every tick), optionally re-add after the wrap, 1-2 rounds, 12-35 ticks. Observed after every block: decoded raw storage of all "
         "key families + epoch/lastEpochBlock/netmap/netmapCandidates/listCandidates/listNodes + the probes' call records. "
         "distinct_nontrivial = distinct (operation, observation) pairs of HALTed invocations")
 _base = dict(driver="drv_netmap", harness="netmap", shards=dict(quick=1, thorough=16), rule=RULE, facts=["consts"],
